@@ -129,7 +129,7 @@ PROPS = {
     ),
     'C04': dict(
         standins=['fq2_sqrt_order'],
-        units_quick=['codec', 'scalar'], units_thorough=['codec', 'scalar', 'curve'], timeout=1800,
+        units_quick=['codec', 'scalar', 'recover', 'order'], units_thorough=['codec', 'scalar', 'recover', 'order', 'curve'], timeout=1800,
         claim="the four decoders (real bodies of into_affine_unchecked and into_affine for G1/G2, compressed/uncompressed) equal the decoding functions "
               "dec_* / chk_* of specs/codec.vrs, written from the property statement, for every byte string of the right length: form flag, then "
               "infinity (all other bits zero) / sort flags, then coordinate range (each 48-byte big-endian block < q, all three flag bits cleared first), "
@@ -163,15 +163,17 @@ PROPS = {
         units_quick=['order', 'recover', 'mont'], units_thorough=['order', 'recover', 'mont', 'ffdep', 'tower'], timeout=1800,
         claim="PARTIAL: Fq::sgn0 = parity of the canonical integer (limb-0 bit, proved with the limb-value lemma); Fq2::sgn0 = sgn0 of the first non-zero "
               "coefficient, real part first; Sgn0Result xor and negate_if exact; Ord / PartialOrd for Fq2 = lexicographic order with the u-coefficient most "
-              "significant; Fq2::legendre = Legendre symbol of the norm; the two exponent literals of Fq2::sqrt equal (q-3)/4 and (q-1)/2 and sqrt(0) = 0; "
+              "significant; Fq2::legendre = Legendre symbol of the norm; Fq2::sqrt (Algorithm 9, real body): the two exponent literals equal (q-3)/4 and (q-1)/2, sqrt(0) = 0, None only for non-zero input, "
+              "and every returned x satisfies x^2 = e(a) * a with e(a) = 1 if alpha = -1 and e(a) = b^2 * alpha otherwise (alpha = a^((q-1)/2), b = (1 + alpha)^((q-1)/2)) - pure ring algebra over the pow contract; "
               "negation flips parity and order of every non-zero y (proved from q odd); get_point_from_x returns a point on the curve with the given x "
               "whose y is the larger root iff the flag is set, or None when x^3+b has no root. "
               "Derive-generated code (unit mont, real bodies): Fq / Fr cmp = order of the canonical integers; Fq / Fr legendre = classification of x^((q-1)/2) into 0 / 1 / other; "
               "Fq::sqrt (q = 3 mod 4) returns None exactly when x^((q-1)/2) = -1 and otherwise y = x^((q+1)/4) with y^2 = x * x^((q-1)/2), "
               "the exponent literals being (q-3)/4 and (q-1)/2 (closed terms) and Field::pow (text of the pinned ff-zeroize source) being x^e by square-and-multiply over ff's BitIterator (unit ffdep).",
         not_covered=["Euler's criterion (A8) is what turns `x^((q-1)/2) in {0, 1}` into `x is a square` and the sqrt statement into y^2 = x; Fr::sqrt (Tonelli-Shanks, r = 1 mod 4) is not under contract",
-                     "that Fq2::sqrt (Algorithm 9) returns a root exactly when one exists (A8'): only its constants and the zero case are proved"],
-        assumptions=[A['A8'], "A8' correctness of Adj/Rodriguez-Henriquez Algorithm 9", A['D_FQ'], "(-y)^2 = y^2 in Fq2 stated as a ring fact (lemma_neg_sq2)", A['TOOLS']],
+                     "that e(a) = 1 whenever Algorithm 9 returns Some, and that it returns None only for non-squares (A8': Frobenius is additive and a^((q^2-1)/2) = +-1) - number theory, not proved; the stand-in fq2_sqrt_order exercises it"],
+        assumptions=[A['A8'], "A8' correctness of Adj/Rodriguez-Henriquez Algorithm 9", A['D_FQ'], "(-y)^2 = y^2 in Fq2 stated as a ring fact (lemma_neg_sq2)",
+                     "ring laws of the schoolbook Fq2 product (commutative, associative, 1 and -1 act as expected, u^2 = -1) and the laws of powers are stated as axioms in unit order (polynomial identities in the coefficients)", A['TOOLS']],
     ),
     'C15': dict(
         units_quick=['sswu', 'sswuhelp', 'order', 'consts'], units_thorough=['sswu', 'sswuhelp', 'order', 'consts', 'tower'], timeout=1800,
